@@ -96,6 +96,53 @@ fn nofollow_ident(root: &Root, path: &[u8]) -> Option<(u64, u64)> {
     Some((st.st_dev, st.st_ino))
 }
 
+/// The permission bits of a newly created entry are those the corresponding raw *at call gives: the same call is made
+/// in a scratch directory (outside the root, same filesystem, same mode bits as the in-root parent, same umask) and the
+/// two `st_mode`s are compared (set-id / sticky bits, umask, set-gid inheritance and all).
+fn mode_probe(top: &Path, op: &Op, parent_key: &[u8], key: &[u8], after: &Snap) -> Option<String> {
+    let got = after.get(key)?.mode;
+    let parent_mode = after.get(parent_key).map(|e| e.mode).unwrap_or(0o755);
+    let d = top.join("modeprobe");
+    let _ = fs::remove_dir_all(&d);
+    fs::create_dir(&d).ok()?;
+    let cd = std::ffi::CString::new(d.as_os_str().as_bytes()).ok()?;
+    unsafe { libc::chmod(cd.as_ptr(), parent_mode as libc::mode_t) };
+    let cx = std::ffi::CString::new(d.join("x").as_os_str().as_bytes()).ok()?;
+    let r = unsafe {
+        match op {
+            Op::Mkdir { mode, .. } => libc::mkdirat(libc::AT_FDCWD, cx.as_ptr(), *mode as libc::mode_t),
+            Op::Mknod { mode, dev, .. } => libc::mknodat(libc::AT_FDCWD, cx.as_ptr(), *mode as libc::mode_t, *dev as libc::dev_t),
+            Op::CreateFile { mode, .. } => {
+                let fd = libc::openat(libc::AT_FDCWD, cx.as_ptr(), libc::O_CREAT | libc::O_WRONLY | libc::O_CLOEXEC, *mode as libc::c_uint);
+                if fd >= 0 {
+                    libc::close(fd);
+                    0
+                } else {
+                    -1
+                }
+            }
+            _ => -1,
+        }
+    };
+    let want = if r == 0 {
+        let mut st: libc::stat = unsafe { std::mem::zeroed() };
+        let ok = unsafe { libc::fstatat(libc::AT_FDCWD, cx.as_ptr(), &mut st, libc::AT_SYMLINK_NOFOLLOW) } == 0;
+        if ok {
+            Some(st.st_mode & 0o7777)
+        } else {
+            None
+        }
+    } else {
+        None
+    };
+    unsafe { libc::chmod(cd.as_ptr(), 0o700) };
+    let _ = fs::remove_dir_all(&d);
+    match want {
+        Some(w) if w != got => Some(format!("mode of the new entry {} is {:o}, the raw call gives {:o}", hex(key), got, w)),
+        _ => None,
+    }
+}
+
 fn subtree_keys(s: &Snap, key: &[u8]) -> Vec<Vec<u8>> {
     let mut pre = key.to_vec();
     pre.push(b'/');
@@ -221,7 +268,10 @@ pub fn judge(
             }
             want.insert(t.key(), e);
             match compare(&want, after, free) {
-                None => "effect ok created".into(),
+                None => match mode_probe(top, op, &t.parent, &t.key(), after) {
+                    None => "effect ok created".into(),
+                    Some(d) => format!("effect DIFF after create: {d}"),
+                },
                 Some(d) => format!("effect DIFF after create: {d}"),
             }
         }
@@ -278,6 +328,9 @@ pub fn judge(
                 }
                 None => {
                     want.insert(key.clone(), placeholder('f'));
+                    if let Some(d) = mode_probe(top, op, &t.parent, &key, after) {
+                        return format!("effect DIFF after create_file: {d}");
+                    }
                 }
             }
             if let Some(d) = compare(&want, after, None) {
